@@ -58,6 +58,8 @@ pub enum Form {
     NewInfoSpanSync,
     GuardFn,
     Manual,
+    /// `setup:` argument whose value holds an entered ambient frame until it is dropped
+    SetupFn,
     /// a hand-made guard with the public default completion (`completion::default(..)`), its `with_tpl`,
     /// `with_lvl`, `with_panic_lvl` setters applied in an order and subset derived from the span number
     DefaultCompl,
@@ -173,6 +175,9 @@ pub struct SpanInfo {
     pub expect_lvl: Option<Option<&'static str>>,
     /// the rendered message, when the completion replaces the template (None inside: the span's own)
     pub expect_msg: Option<Option<String>>,
+    /// the completion must carry the span's own ids (checked under C05 too: a completion that lost them is not the
+    /// completion of this span)
+    pub needs_own_ids: bool,
     /// the `err` a normally completed span shows (its own, if it has one); an unwound one shows the panic
     pub expect_err: Option<Option<&'static str>>,
     /// the span was actually unwound by a panic (its own or one of a nested node)
@@ -508,6 +513,7 @@ fn new_span_info(w: &World, st: &Strand, sid: u32, form: Form, exit: Exit, enabl
         expect_xprop: None,
         expect_lvl: None,
         expect_msg: None,
+        needs_own_ids: false,
         expect_err: None,
         unwound: false,
     };
@@ -620,6 +626,37 @@ fn span_when_fn(w: &Arc<World>, st: &mut Strand, sid: u32, enabled: bool, body: 
 
 #[emit::warn_span(rt: &w.rt, "span {sid}", sid)]
 fn span_warn_fn(w: &Arc<World>, st: &mut Strand, sid: u32, enabled: bool, body: &Arc<Vec<S>>, exit: Exit) {
+    body_sync(w, st, sid, enabled, body, exit)
+}
+
+/// What a `setup:` argument typically returns: something that establishes ambient context before the span is created
+/// (here: a frame pushed and entered by hand) and takes it down again when dropped - which has to be after the span
+/// has completed and its own frame has been left.
+pub struct SetupFrame {
+    ctxt: TheCtxt,
+    frame: Option<<TheCtxt as Ctxt>::Frame>,
+}
+
+impl SetupFrame {
+    fn enter(w: &Arc<World>, sid: u32) -> Self {
+        let ctxt = w.rt.ctxt().clone();
+        let mut frame = ctxt.open_push(("set_up_by", sid));
+        ctxt.enter(&mut frame);
+        SetupFrame { ctxt, frame: Some(frame) }
+    }
+}
+
+impl Drop for SetupFrame {
+    fn drop(&mut self) {
+        if let Some(mut frame) = self.frame.take() {
+            self.ctxt.exit(&mut frame);
+            self.ctxt.close(frame);
+        }
+    }
+}
+
+#[emit::span(rt: &w.rt, setup: || SetupFrame::enter(w, sid), "span {sid}", sid)]
+fn span_setup_fn(w: &Arc<World>, st: &mut Strand, sid: u32, enabled: bool, body: &Arc<Vec<S>>, exit: Exit) {
     body_sync(w, st, sid, enabled, body, exit)
 }
 
@@ -857,6 +894,10 @@ fn run_span_sync(w: &Arc<World>, st: &mut Strand, n: &S) {
         Form::WarnFn => {
             lg(&w.log).spans[ix].expect_lvl = Some(Some("warn"));
             span_warn_fn(w, st, sid, enabled, body, exit)
+        }
+        Form::SetupFn => {
+            lg(&w.log).spans[ix].needs_own_ids = true;
+            span_setup_fn(w, st, sid, enabled, body, exit)
         }
         Form::NewInfoSpanSync => {
             lg(&w.log).spans[ix].expect_lvl = Some(Some("info"));
@@ -1450,9 +1491,9 @@ pub fn gen_nodes(ch: &mut Choices, cfg: &GenCfg, depth: u32, budget: &mut u32, n
                 *next += 1;
                 let sid = *next;
                 let form = if c05 && is_async {
-                    *ch.pick(&[Form::Manual, Form::Manual, Form::Manual, Form::SyncFn, Form::ResultFn, Form::PanicLvlFn, Form::ResultPanicLvlFn, Form::InfoResultFn, Form::WhenFn, Form::WarnFn, Form::NewInfoSpanSync, Form::GuardFn, Form::NewSpanSync, Form::DefaultCompl, Form::DefaultCompl, Form::AsyncFn, Form::AsyncFn, Form::NewSpanAsync])
+                    *ch.pick(&[Form::Manual, Form::Manual, Form::Manual, Form::SyncFn, Form::ResultFn, Form::PanicLvlFn, Form::ResultPanicLvlFn, Form::InfoResultFn, Form::WhenFn, Form::WarnFn, Form::NewInfoSpanSync, Form::GuardFn, Form::NewSpanSync, Form::DefaultCompl, Form::DefaultCompl, Form::SetupFn, Form::AsyncFn, Form::AsyncFn, Form::NewSpanAsync])
                 } else if c05 {
-                    *ch.pick(&[Form::Manual, Form::Manual, Form::Manual, Form::SyncFn, Form::ResultFn, Form::PanicLvlFn, Form::ResultPanicLvlFn, Form::InfoResultFn, Form::WhenFn, Form::WarnFn, Form::NewInfoSpanSync, Form::GuardFn, Form::NewSpanSync, Form::DefaultCompl, Form::DefaultCompl])
+                    *ch.pick(&[Form::Manual, Form::Manual, Form::Manual, Form::SyncFn, Form::ResultFn, Form::PanicLvlFn, Form::ResultPanicLvlFn, Form::InfoResultFn, Form::WhenFn, Form::WarnFn, Form::NewInfoSpanSync, Form::GuardFn, Form::NewSpanSync, Form::DefaultCompl, Form::DefaultCompl, Form::SetupFn])
                 } else if is_async {
                     *ch.pick(&[Form::AsyncFn, Form::AsyncFn, Form::NewSpanAsync, Form::SyncFn, Form::NewSpanSync, Form::ResultFn, if TP { Form::SyncFn } else { Form::WhenFn }, Form::WarnFn])
                 } else {
@@ -1923,6 +1964,13 @@ fn posthoc(w: &World, focus: &'static str) {
         }
         if !rec.is_span {
             v.push(("C05", "span_kind", format!("span {} completed as a non-span event", s.sid)));
+        }
+        if s.needs_own_ids && (rec.span_id.is_none() || rec.trace_id.is_none()) {
+            v.push((
+                "C05",
+                "completion_without_ids",
+                format!("span {} ({:?}, exit {:?}) completed without its ids (trace {:?}, span {:?}): its frame was no longer the active one when it completed", s.sid, s.form, s.exit, rec.trace_id, rec.span_id),
+            ));
         }
     }
 
